@@ -490,7 +490,118 @@ fn trait_views(rep: &mut Report, r: &mut Rng, budget: u64, level: u32) {
             rep.violation("api-readback", "getters differ from what was set".into(), format!("{} | {}", m.describe(), how));
             continue;
         }
+        // a third of the packets additionally get runs of 1-3 NEIGHBOURING option keys that were added
+        // and cleared again (empty value lists in front of, between and behind the real options)
+        let mut p = p;
+        let mut how = how;
+        if r.chance(1, 3) {
+            let present: Vec<u16> = m.options.iter().map(|o| o.0).collect();
+            let mut anchors: Vec<u16> = vec![0];
+            anchors.extend(present.iter().map(|n| n.saturating_add(1)));
+            for a in anchors {
+                if !r.chance(1, 2) {
+                    continue;
+                }
+                let run = r.urange(1, 3) as u16;
+                for k in 0..run {
+                    let n = a.saturating_add(k);
+                    if present.contains(&n) {
+                        break;
+                    }
+                    p.add_option(CoapOption::from(n), vec![0xEE, 0xEE]);
+                    p.clear_option(CoapOption::from(n));
+                }
+            }
+            how.push_str(" + runs of cleared neighbouring keys");
+            if packet_to_msg(&p) != m {
+                rep.violation("api-readback", "getters differ from what was set after adding and clearing other keys".into(), format!("{} | {}", m.describe(), how));
+                continue;
+            }
+            rep.count("trait_views_with_runs_of_cleared_keys");
+        }
+        let p = p;
         let wit = format!("{} | built by: {}", m.describe(), how);
+        // the option iterators obey the Iterator protocol however they are consumed: k items through
+        // next(), the rest through fold-based adaptors (for_each / count / last), nth, peekable
+        {
+            rep.eval();
+            let res = guard(|| {
+                let mut bad: Option<String> = None;
+                let full2: Vec<(u16, Vec<u8>)> = {
+                    use coap_message::{MessageOption, ReadableMessage};
+                    <Packet as ReadableMessage>::options(&p).map(|o| (o.number(), o.value().to_vec())).collect()
+                };
+                for k in 0..=full2.len().min(3) {
+                    {
+                        use coap_message::{MessageOption, ReadableMessage};
+                        let mut it = <Packet as ReadableMessage>::options(&p);
+                        let mut got: Vec<(u16, Vec<u8>)> = Vec::new();
+                        for _ in 0..k {
+                            if let Some(o) = it.next() {
+                                got.push((o.number(), o.value().to_vec()));
+                            }
+                        }
+                        it.for_each(|o| got.push((o.number(), o.value().to_vec())));
+                        if got != m.options {
+                            bad = Some(format!("0.2 view: {} x next() then for_each yields {} of {} options", k, got.len(), m.options.len()));
+                        }
+                        let mut it = <Packet as ReadableMessage>::options(&p);
+                        for _ in 0..k {
+                            it.next();
+                        }
+                        let c = it.count();
+                        if c + k.min(m.options.len()) != m.options.len() {
+                            bad = Some(format!("0.2 view: {} x next() then count() = {} ({} options)", k, c, m.options.len()));
+                        }
+                        let mut it = <Packet as ReadableMessage>::options(&p);
+                        for _ in 0..k {
+                            it.next();
+                        }
+                        let last = it.last().map(|o| (o.number(), o.value().to_vec()));
+                        if k < m.options.len() && last.as_ref() != m.options.last() {
+                            bad = Some(format!("0.2 view: {} x next() then last() = {:?}", k, last.map(|l| l.0)));
+                        }
+                        let nth = <Packet as ReadableMessage>::options(&p).nth(k).map(|o| (o.number(), o.value().to_vec()));
+                        if nth.as_ref() != m.options.get(k) {
+                            bad = Some(format!("0.2 view: nth({}) = {:?}", k, nth.map(|l| l.0)));
+                        }
+                    }
+                    {
+                        use coap_message_0_3::{MessageOption, ReadableMessage};
+                        let mut it = <Packet as ReadableMessage>::options(&p).peekable();
+                        let mut got: Vec<(u16, Vec<u8>)> = Vec::new();
+                        for _ in 0..k {
+                            if let Some(o) = it.next() {
+                                got.push((o.number(), o.value().to_vec()));
+                            }
+                        }
+                        let _ = it.peek();
+                        it.for_each(|o| got.push((o.number(), o.value().to_vec())));
+                        if got != m.options {
+                            bad = Some(format!("0.3 view: {} x next(), peek, then for_each yields {} of {} options", k, got.len(), m.options.len()));
+                        }
+                        let mut it = <Packet as ReadableMessage>::options(&p);
+                        for _ in 0..k {
+                            it.next();
+                        }
+                        let c = it.count();
+                        if c + k.min(m.options.len()) != m.options.len() {
+                            bad = Some(format!("0.3 view: {} x next() then count() = {} ({} options)", k, c, m.options.len()));
+                        }
+                        let longest = <Packet as ReadableMessage>::options(&p).map(|o| o.value().len()).max();
+                        if longest != m.options.iter().map(|o| o.1.len()).max() {
+                            bad = Some(format!("0.3 view: longest value {:?}", longest));
+                        }
+                    }
+                }
+                bad
+            });
+            match res {
+                Err(pn) => rep.violation(&format!("trait-iterator-{}", pn.sig()), pn.text(), wit.clone()),
+                Ok(Some(b)) => rep.violation("trait-iterator-protocol", b, wit.clone()),
+                Ok(None) => rep.count("trait_iterator_protocol_checked"),
+            }
+        }
         // an insertion order that keeps the order of values within one option number
         let order: Vec<usize> = {
             let mut groups: Vec<Vec<usize>> = Vec::new();
